@@ -23,7 +23,16 @@ var registry = map[string]PropertyFunc{}
 func register(id string, f PropertyFunc) { registry[id] = f }
 
 // Lookup returns the check of a property.
-func Lookup(id string) PropertyFunc { return registry[id] }
+func Lookup(id string) PropertyFunc {
+	f := registry[id]
+	if f == nil {
+		return nil
+	}
+	return func(c *Ctx) {
+		theProg = c.P
+		f(c)
+	}
+}
 
 // IDs lists the registered properties.
 func IDs() []string {
